@@ -16,15 +16,22 @@ pub mod utc;
 pub use utc::*;
 
 pub(super) fn fixed_timezone(offset: &str) -> String {
-    let gmt_offset = offset[2..offset.find(':').unwrap_or(3)].to_string();
+    // `offset` is a UTC offset formatted as `+HH:MM`
+    let gmt_sign = offset[0..1].to_string();
+    let gmt_hours = offset[1..offset.find(':').unwrap_or(3)].trim_start_matches('0');
+    let gmt_minutes = offset.find(':').map_or("", |pos| &offset[pos + 1..]);
 
-    if gmt_offset == "0" {
+    if !gmt_minutes.chars().all(|c| c == '0' || c == ':') {
+        // There is no fixed zone for offsets that are not whole hours
+        return format!("Etc/GMT{offset}");
+    }
+
+    if gmt_hours.is_empty() {
         return "UTC".into();
     }
-    let gmt_sign = offset[0..1].to_string();
 
     format!(
-        "Etc/GMT{sign}{gmt_offset}",
+        "Etc/GMT{sign}{gmt_hours}",
         sign = if gmt_sign == "-" { "+" } else { "-" }
     )
 }
